@@ -320,3 +320,43 @@ def v8_wait_cases(wasm_bytes, cases):
         x = r.results[i - 1] if i - 1 < len(r.results) else ('error', 'missing')
         res.append(x[1][0][1] if x[0] == 'val' and x[1] else str(x))
     return res
+
+
+# ----------------------------------------------------------------------------- the deadline of a finite-timeout wait (no real waiting)
+
+def build_timeout(repo_copy, workdir, cc="gcc"):
+    exe = os.path.join(workdir, "futex_timeout")
+    cmd = [cc, "-O1", "-g", "-w", "-DWASM_THREADS_PTHREADS", "-I", os.path.join(repo_copy, "w2c2"), "-I", os.path.join(repo_copy, "futex"),
+           os.path.join(HERE, "futex_timeout.c")] + [os.path.join(repo_copy, "futex", f) for f in ("futex.c", "list.c", "map.c")]
+    cmd += ["-Wl,--wrap=clock_gettime,--wrap=pthread_cond_timedwait", "-o", exe, "-lpthread", "-lm"]
+    p = subprocess.run(cmd, stdout=subprocess.PIPE, stderr=subprocess.PIPE, text=True)
+    if p.returncode != 0:
+        raise RuntimeError("futex_timeout build failed:\n" + p.stderr[-2000:])
+    return exe
+
+
+def timeout_cases(rng, n_random):
+    """(now_sec, now_nsec, timeout_ns, wait64) — timeouts around 2^32 ns and far beyond, clock readings incl. nsec carry"""
+    ts = [0, 1, 999999999, 10 ** 9, 10 ** 9 + 1, (1 << 31) - 1, 1 << 31, (1 << 32) - 1, 1 << 32, (1 << 32) + 1, 4500000000, 10 ** 10,
+          (1 << 40), (1 << 40) + 999999999, 1 << 62, (1 << 62) + 123456789, (1 << 63) - 1 - 2 * 10 ** 18]
+    for _ in range(n_random):
+        ts.append(rng.randrange(1 << rng.choice([20, 31, 33, 40, 50, 62])))
+    nows = [(1000, 0), (1000, 999999999), (1700000000, 500000000), (1, 1)]
+    out = []
+    for i, t in enumerate(ts):
+        for (s, ns) in (nows if i < 17 else [rng.choice(nows)]):
+            out.append((s, ns, t, i % 2))
+    return out
+
+
+def run_timeout(exe, cases):
+    inp = "".join("%d %d %d %d\n" % c for c in cases)
+    p = subprocess.run([exe], input=inp, stdout=subprocess.PIPE, stderr=subprocess.PIPE, text=True, timeout=120)
+    if p.returncode != 0:
+        raise RuntimeError(f"futex_timeout exited {p.returncode}: {p.stdout[-300:]} {p.stderr[-500:]}")
+    return [tuple(int(x) for x in ln.split()) for ln in p.stdout.splitlines()]
+
+
+def expected_deadline(s, ns, t):
+    tot = s * 10 ** 9 + ns + t
+    return tot // 10 ** 9, tot % 10 ** 9
